@@ -529,3 +529,23 @@ pub proof fn lemma_hybrid_stable(fs: Seq<BF>, gr: Seq<Term>, rank: Seq<nat>, v: 
         if is_lfp(rd2, tv) { assert(is_fix(rd, tv)); assert forall|w: Seq<Option<bool>>| #[trigger] is_fix(rd, w) implies below(tv, w) by { assert(is_fix(rd2, w)); } }
     }
 }
+// a function that looks only at the variables below n does not depend on a variable >= n
+pub proof fn lemma_dep_below_indep(f: BF, n: int, v: usize)
+    requires dep_below(f, n), (v as int) >= n,
+    ensures bf_indep(f, v)
+{
+    assert forall|a: Asg, b: bool| #[trigger] f(upd(a, v, b)) == f(a) by { assert(agree_below(upd(a, v, b), a, n)); }
+}
+pub proof fn lemma_dep_restrict(f: BF, n: int, v: usize, b: bool)
+    requires dep_below(f, n),
+    ensures dep_below(bf_restrict(f, v, b), n)
+{
+    assert forall|x: Asg, y: Asg| #[trigger] agree_below(x, y, n) implies bf_restrict(f, v, b)(x) == bf_restrict(f, v, b)(y) by { assert(agree_below(upd(x, v, b), upd(y, v, b), n)); }
+}
+pub proof fn lemma_dep_cof(f: BF, n: int, c: Seq<Term>, k: int)
+    requires dep_below(f, n), 0 <= k <= c.len(), c.len() < usize::MAX,
+    ensures dep_below(cof(f, c, k), n)
+    decreases k
+{
+    if k > 0 { lemma_dep_cof(f, n, c, k - 1); if decided(c[k - 1]) { lemma_dep_restrict(cof(f, c, k - 1), n, (k - 1) as usize, c[k - 1].0 == 1); } }
+}
